@@ -205,8 +205,24 @@ func newInliner(pk *pkgView, known map[string]bool) *inliner {
 		})
 	}
 	for obj, fd := range in.decls {
-		if obj.Exported() || obj.Name() == "main" || obj.Name() == "init" || known[funcKey(obj)] {
+		if obj.Name() == "main" || obj.Name() == "init" || known[funcKey(obj)] {
 			continue
+		}
+		if obj.Exported() {
+			// part of the package's API, unless it is a method of an unexported type
+			// (String, Error ... of a new helper type): those are inlined at their static
+			// call sites but never removed, because they may also be reached through an interface
+			rt := obj.Type().(*types.Signature).Recv()
+			if rt == nil {
+				continue
+			}
+			t := rt.Type()
+			if p, ok := t.(*types.Pointer); ok {
+				t = p.Elem()
+			}
+			if n, ok := t.(*types.Named); !ok || n.Obj().Exported() {
+				continue
+			}
 		}
 		sig := obj.Type().(*types.Signature)
 		if sig.Variadic() || sig.TypeParams() != nil || sig.RecvTypeParams() != nil {
